@@ -57,7 +57,8 @@ def nlUnmatched (bits : List (Option Bool)) (nR : Nat) (L : List Row) (nRrows : 
   ((List.range L.length).zip L).filterMap (fun (i, l) =>
     if nlMatched bits L.length nRrows i then none else some (l ++ nulls nR))
 
-/-- `NestedLoopJoinExecutor::execute` for `inner` (`outer = false`) and `left_outer`. -/
+/-- `NestedLoopJoinExecutor::execute` for `inner` (`outer = false`) and `left_outer` (= `nlJoinG outer false`,
+`nlJoinG_eq_nlJoin`). -/
 def nlJoin (outer : Bool) (on : Pred) (nR : Nat) (Ls Rs : List Chunk) : List Chunk :=
   let L := flat Ls
   let R := flat Rs
@@ -66,6 +67,27 @@ def nlJoin (outer : Bool) (on : Pred) (nR : Nat) (Ls Rs : List Chunk) : List Chu
   let bits := (flat windows).map on
   let out1 := windows.map (fun w => w.filter (fun row => holds (on row)))
   if outer then out1 ++ emit (nlUnmatched bits nR L R.length) else out1
+
+/-- The bitmap pass of the right-outer join (since /repo 7d07810): right row number `j` is matched iff
+some `filter[j * nLrows + i]`, `i < nLrows`, is TRUE. -/
+def nlMatchedR (bits : List (Option Bool)) (nLrows j : Nat) : Bool :=
+  (List.range nLrows).any (fun i => holds (bits.getD (j * nLrows + i) none))
+
+def nlUnmatchedR (bits : List (Option Bool)) (nL : Nat) (nLrows : Nat) (R : List Row) : List Row :=
+  ((List.range R.length).zip R).filterMap (fun (j, r) =>
+    if nlMatchedR bits nLrows j then none else some (nulls nL ++ r))
+
+/-- `NestedLoopJoinExecutor::execute`, all four types: the filtered windows of the cross product, then
+(left / full) the unmatched left rows in left order, then (right / full) the unmatched right rows in
+right order, the last two through the same chunk builder. -/
+def nlJoinG (padLeft padRight : Bool) (on : Pred) (nL nR : Nat) (Ls Rs : List Chunk) : List Chunk :=
+  let L := flat Ls
+  let R := flat Rs
+  let windows := emit (crossRL L R)
+  let bits := (flat windows).map on
+  windows.map (fun w => w.filter (fun row => holds (on row))) ++
+    emit ((if padLeft then nlUnmatched bits nR L R.length else []) ++
+          (if padRight then nlUnmatchedR bits nL L.length R else []))
 
 /-- `NestedLoopSemiJoinExecutor::execute`. -/
 def nlSemiJoin (anti : Bool) (on : Pred) (Ls Rs : List Chunk) : List Chunk :=
